@@ -18,7 +18,7 @@ Print Assumptions C09_all_cells_complete.
 
 (* non-vacuity: the matrix is large and reaches every kind of action *)
 Example C09_matrix_nonvacuous :
-  length all_cells = 1410 /\
+  length all_cells = 2490 /\
   existsb (fun c => match spec c with ARet (RCall _ _ _ _) => true | _ => false end) all_cells = true /\
   existsb (fun c => match spec c with AWrote _ SGivenStream true => true | _ => false end) all_cells = true /\
   existsb (fun c => match spec c with ARaise _ => true | _ => false end) all_cells = true.
